@@ -440,12 +440,18 @@ def check_dtype_gate(ctx):
         f2 = m.func(f'gambit.metric.{fname}')
         ps = f2.params()
         rets = [s for s in f2.node.body if isinstance(s, ast.Return)]
-        rep.require(len(rets) == 1 and isinstance(rets[0].value, ast.Call), f'metric.{fname}: not a single-call wrapper')
+        rep.require(len(rets) >= 1 and isinstance(rets[-1].value, ast.Call), f'metric.{fname}: does not end in a kernel call')
+        rets = [rets[-1]]
         call = rets[0].value
         tgt = m.resolve_call(f2, call)
         rep.add('M7', f2.site(call), f'metric.{fname} forwards to the Cython {fname} (not crossed) with both operands',
                 tgt == f'{PYX}.{fname}' and [u(a) for a in call.args] == ps, expected=f'{PYX}.{fname}({", ".join(ps)})',
                 found=f'{tgt}({", ".join(u(a) for a in call.args)})', stmt=call)
+        all_rets = [s for s in stmts_in(f2.node.body) if isinstance(s, ast.Return)]
+        gm2 = guard_map(f2.node)
+        extra = [r for r in all_rets if r is not rets[0]]
+        rep.add('M7', f2.site(extra[0] if extra else rets[0]), f'metric.{fname}: every result comes from the kernel (no shortcut / special-case return)', not extra and not path_atoms(gm2[rets[0]]),
+                expected='single unconditional return of the kernel value', found=[(u(r.value), sorted(path_atoms(gm2[r]))) for r in extra] or sorted(path_atoms(gm2[rets[0]])), stmt=f'{fname} returns')
         for pname in ps:
             d = [s for s in f2.node.body if isinstance(s, ast.Assign) and isinstance(s.targets[0], ast.Name) and s.targets[0].id == pname]
             ok = len(d) == 1 and isinstance(d[0].value, ast.Call) and [u(a) for a in d[0].value.args] == [pname]
@@ -499,6 +505,8 @@ VARIANTS = [
     V('query not gated in jaccarddist_array', 'B', _P, "\tquery = _cast_sigs_array(query)\n\n\tif out is None:", "\tif out is None:", 'M8'),
     V('SCORE_T double', 'B', _T, "ctypedef float SCORE_T", "ctypedef double SCORE_T", 'M4'),
     V('loop stops one early on second array', 'B', _M, "while i < N and j < M:", "while i < N and j < M - 1:", 'M1'),
+    V('disjoint-range shortcut with <= (seeded C02a)', 'B', _P, "\tcoords1 = _cast_sigs_array(coords1)\n\tcoords2 = _cast_sigs_array(coords2)\n\treturn _cmetric.jaccarddist(coords1, coords2)",
+      "\tcoords1 = _cast_sigs_array(coords1)\n\tcoords2 = _cast_sigs_array(coords2)\n\tif len(coords1) and len(coords2) and coords1[-1] <= coords2[0]:\n\t\treturn 1.\n\treturn _cmetric.jaccarddist(coords1, coords2)", 'M7'),
     V('E: merge as < / > / else', 'E', _M, "\t\tif a <= b:\n\t\t\ti += 1\n\n\t\tif b <= a:\n\t\t\tj += 1\n",
       "\t\tif a < b:\n\t\t\ti += 1\n\t\telif a > b:\n\t\t\tj += 1\n\t\telse:\n\t\t\ti += 1\n\t\t\tj += 1\n"),
     V('E: tail in one statement', 'E', _M, "\tu += N - i\n\tu += M - j\n", "\tu += (N - i) + (M - j)\n"),
